@@ -73,8 +73,10 @@ def gen_history(rng, length, readonly_safe=False, valkeys=None, funcs=3):
             ops.append(["forget_call", f, a])
         elif r < 0.73:
             ops.append(["forget_fn", f])
-        elif r < 0.75:
+        elif r < 0.745:
             ops.append(["forget_all"])
+        elif r < 0.75:
+            ops.append(["reopen"])  # the store is opened again by new backend objects (drivers that hold several do it)
         elif r < 0.81:
             ops.append(["list_fns"])
         elif r < 0.86:
@@ -98,6 +100,20 @@ def gen_history(rng, length, readonly_safe=False, valkeys=None, funcs=3):
         block += [["rmeta", long_, a, META_KEYS[0]], ["read", long_, a], ["ismem", long_, a], ["list_mems", long_], ["list_fns"]]
         at = rng.randrange(len(ops) + 1)
         ops[at:at] = block
+    # aimed block: two different calls store different weak-referenceable values under one override key, the store is
+    # opened again, and both are read (the second while the caller still holds the first one's value)
+    if funcs >= 2 and rng.random() < 0.2:
+        w = [v for v in ("arr", "df", "arr6", "df6") if v in vk]
+        if len(w) >= 2:
+            v1, v2 = rng.sample(w, 2)
+            (f1, a1), (f2, a2) = rng.sample([(f, a) for f in range(funcs) for a in range(NARGS)], 2)
+            key = rng.choice(["ovr/shared", "ovr/other"])
+            block = [["memoize", f1, a1, v1, key], ["memoize", f2, a2, v2, key]]
+            if rng.random() < 0.7:
+                block.append(["reopen"])
+            block += rng.choice([[["read", f2, a2], ["read", f1, a1]], [["read", f1, a1], ["read", f2, a2], ["read", f1, a1]]])
+            at = rng.randrange(len(ops) + 1)
+            ops[at:at] = block
     return ops
 
 
@@ -109,6 +125,8 @@ class Model:
 
     def apply(self, op):
         k = op[0]
+        if k == "reopen":
+            return None
         if k == "memoize":
             _, f, a, vk, ovr = op
             old = self.d.get((f, a))
@@ -172,6 +190,7 @@ class Refs:
         self.ah = [[w.arg_hash for w in row] for row in self.fwa]
         self.ah_index = [{h: i for i, h in enumerate(row)} for row in self.ah]
         self.held = {}  # (backend id, f, a) -> memento object handed to the last memoize
+        self.kept = []  # values handed back by reads: the harness holds on to them, like a caller who still uses them
 
     def memento(self, f, a, value):
         from twosigma.memento.metadata import Memento, InvocationMetadata, ResultType
@@ -194,6 +213,8 @@ def apply_backend(backend, refs, vals, op, model_before=None):
 
     k = op[0]
     try:
+        if k == "reopen":
+            return None
         if k == "memoize":
             _, f, a, vk, ovr = op
             v = val(vals, vk)
@@ -215,7 +236,9 @@ def apply_backend(backend, refs, vals, op, model_before=None):
                 return ("present", m.invocation_metadata.result_type.name,
                         m.invocation_metadata.fn_reference_with_args.fn_reference.qualified_name,
                         m.invocation_metadata.fn_reference_with_args.arg_hash)
-            return ("value", backend.read_result(m))
+            v = backend.read_result(m)
+            refs.kept.append(v)
+            return ("value", v)
         if k == "ismem":
             return bool(backend.is_memoized(refs.refs[op[1]], refs.ah[op[1]][op[2]]))
         if k == "getmany":
